@@ -110,19 +110,26 @@ func (v VarInt) WriteTo(w io.Writer) (n int64, err error) {
 		sized = nil
 	}
 
-	if _, err = w.Write([]byte{prefixByte}); err != nil {
+	j, err := w.Write([]byte{prefixByte})
+	n += int64(j)
+	if err != nil {
 		return
 	}
-	n++
 
 	if sized != nil {
-		if err = binary.Write(w, binary.LittleEndian, sized); err != nil {
-			return
-		}
-		n += int64(binary.Size(sized))
+		j, err = writeLE(w, uint64(v), binary.Size(sized))
+		n += int64(j)
 	}
 
 	return
+}
+
+// writeLE writes the low size bytes of v to w in little-endian order. Unlike binary.Write it
+// reports how many bytes w accepted, so that callers can return an exact count on a short write.
+func writeLE(w io.Writer, v uint64, size int) (int, error) {
+	var b [8]byte
+	binary.LittleEndian.PutUint64(b[:], v)
+	return w.Write(b[:size])
 }
 
 // Bytes returns the serialized VarInt as a byte-slice. Returns
